@@ -13,6 +13,13 @@ open BtcVerif BtcVerif.Spec.Script
 
 /-- the interpreter context of input `i` of `tx` -/
 def txCtx (hashes : Hashes) (ecdsa : Bytes → Bytes → Bytes → Bool) (tx : Tx) (i : Nat) : Ctx :=
-  { env := Spec.Templates.txEnv hashes ecdsa tx i, inIdx := i, nVin := tx.vin.length, nVout := tx.vout.length }
+  -- (C06/C07 audit round 1: `Ctx` carries the outcome of RawSignatureHash; here it is the total reference
+  --  digest, so `(txCtx hashes ecdsa tx i).env = Spec.Templates.txEnv hashes ecdsa tx i` by `rfl`)
+  { hashes := hashes
+    sigHash := fun scriptCode ht => .ok (Spec.Sighash.legacySighash scriptCode tx i ht).1
+    sigVerify := ecdsa }
+
+theorem txCtx_env (hashes : Hashes) (ecdsa : Bytes → Bytes → Bytes → Bool) (tx : Tx) (i : Nat) :
+    (txCtx hashes ecdsa tx i).env = Spec.Templates.txEnv hashes ecdsa tx i := rfl
 
 end BtcVerif.Model.ScriptEval
